@@ -4,6 +4,8 @@ package dirk
 
 import (
 	"context"
+	"regexp"
+	"strings"
 
 	api "github.com/attestantio/go-eth2-client/api/v1"
 	"github.com/attestantio/go-eth2-client/spec/phase0"
@@ -192,4 +194,58 @@ func VerifC13_Refresh() {
 	got, err := s.ValidatingAccountsForEpoch(context.Background(), 5)
 	vnd.Assert(err == nil && len(got) == wantN, "C13.refresh.validating-accounts-are-the-known-active-ones")
 	vnd.Assert(vnd.HeldLocks() == 0 && vnd.Quiesce() == 0, "C13.refresh.locks-released-goroutines-done")
+}
+
+// the account specifiers and account names of VerifC13_Specifiers
+var c13Specifiers = []string{"Wallet 1", "Wallet 1/Account 1", "Wallet 1/Account [0-9]", "^Wallet 1/Acc.*$", "Wallet 1/^Account 1$", "Wallet 2", "Wallet 1/.*2"}
+var c13Names = []string{"Account 1", "Account 10", "Account 2", "Extra Account 1", "Acc"}
+
+// c13FullMatch is the reference: the specifier's wallet part must be the
+// wallet's name, and its account part (everything when absent), anchors
+// stripped, must match the whole account name.
+func c13FullMatch(spec, wallet, account string) bool {
+	parts := strings.SplitN(spec, "/", 2)
+	w := strings.TrimSuffix(strings.TrimPrefix(parts[0], "^"), "$")
+	a := ".*"
+	if len(parts) == 2 && parts[1] != "" {
+		a = strings.TrimSuffix(strings.TrimPrefix(parts[1], "^"), "$")
+	}
+	return w == wallet && regexp.MustCompile("^(?:"+a+")$").MatchString(account)
+}
+
+// VerifC13_Specifiers: an account offered by the remote signer is used exactly
+// when its wallet/account name fully matches one of the configured specifiers
+// (catalogue of 7 specifiers, one or two of them configured, and 5 account
+// names offered by wallet "Wallet 1").
+func VerifC13_Specifiers() {
+	vm := &c13Validators{recs: map[phase0.BLSPubKey]*phase0.Validator{}, idx: map[phase0.BLSPubKey]phase0.ValidatorIndex{}}
+	specs := []string{c13Specifiers[vnd.Choose("specifier", len(c13Specifiers))]}
+	if vnd.Bool("second-specifier") {
+		specs = append(specs, c13Specifiers[vnd.Choose("specifier2", len(c13Specifiers))])
+	}
+	s := &Service{accounts: map[phase0.BLSPubKey]e2wtypes.Account{}, validatorsManager: vm, farFutureEpoch: c13FarFuture, currentEpochProvider: vstub.NewChainTime(0),
+		wallets: map[string]e2wtypes.Wallet{}, accountPaths: specs, processConcurrency: 2}
+	w1 := &vstub.Wallet{Nm: "Wallet 1"}
+	for i, nm := range c13Names {
+		acc := &vstub.Account{Tag: uint64(i + 1), Nm: nm}
+		acc.Key.B = phase0.BLSPubKey{byte(i + 1)}
+		w1.Accs = append(w1.Accs, acc)
+	}
+	s.wallets["Wallet 1"] = w1
+	s.wallets["Wallet 2"] = &vstub.Wallet{Nm: "Wallet 2"}
+	s.refreshAccounts(context.Background())
+	for i, nm := range c13Names {
+		matches, matchesPlain := false, false
+		for _, sp := range specs {
+			matches = matches || c13FullMatch(sp, "Wallet 1", nm)
+			// a specifier whose wallet part is written without anchors names its wallet literally
+			matchesPlain = matchesPlain || (!strings.HasPrefix(sp, "^") && c13FullMatch(sp, "Wallet 1", nm))
+		}
+		_, used := s.accounts[phase0.BLSPubKey{byte(i + 1)}]
+		vnd.Assert(!used || matches, "C13.specifiers.account-used-only-if-its-name-fully-matches-a-specifier")
+		vnd.Assert(!matchesPlain || used, "C13.specifiers.account-matching-a-plainly-written-specifier-is-used")
+		if used {
+			vnd.Cover("C13.specifiers.account-used")
+		}
+	}
 }
